@@ -18,7 +18,7 @@ SEARCH_AOBJ = $(patsubst engines/%.cpp,$(B)/asan/%.o,$(SEARCH_SRC))
 
 .PHONY: all prod asan clean
 all: prod
-prod: $(B)/search
+prod: $(B)/search $(B)/segmentation
 
 $(STAMP):
 	@mkdir -p $(B) && touch $@
@@ -32,6 +32,9 @@ $(B)/asan/%.o: engines/%.cpp $(HDRS)
 	$(CXX) $(ASAN) -c $< -o $@
 
 $(B)/search: $(SEARCH_OBJ)
+	$(CXX) $(PROD) $^ -o $@
+
+$(B)/segmentation: $(B)/prod/segmentation.o
 	$(CXX) $(PROD) $^ -o $@
 
 $(B)/search_asan: $(SEARCH_AOBJ)
